@@ -10,6 +10,7 @@
 //                 1 0 caller at gate 1   2 0 caller blocked in Await   3 v returned (v,nil)   4 0 returned Canceled   5 e returned error e
 //                 6 c goroutine inside the callback (c=1 its ctx was cancelled on entry)   7 0 at gate 2   8 0 at gate 3   9 0 finished
 // memo   events:  [1] call the memoized function in a new actor     [2 i k] fn running on actor i returns k: 0 value i+1, 1 error i+1
+//                 [3 n w] n new actors call it at the same moment (they race for real); w (written by the harness) = which one entered fn
 //        observation per actor: 6 0 inside fn   2 0 blocked on done   3 v / 5 e returned
 package oncex
 
@@ -18,6 +19,8 @@ import (
 	"errors"
 	"fmt"
 	"math/rand/v2"
+	"runtime"
+	"sync/atomic"
 	"testing"
 	"testing/synctest"
 
@@ -261,13 +264,15 @@ func (s *sys) gen(r *rand.Rand, maxCallers int) []uint64 {
 			return []uint64{1, 0}
 		case x < 60 && len(gates) > 0:
 			return []uint64{3, uint64(gates[r.IntN(len(gates))]), 0}
-		case x < 72 && len(live) > 0:
+		case x < 67 && len(live) > 0:
 			// mostly callers that are still inside Resolve (at the gate, blocked, or the spawner of a running callback)
 			if len(liveWaiting) > 0 && r.IntN(8) != 0 {
 				return []uint64{4, uint64(liveWaiting[r.IntN(len(liveWaiting))])}
 			}
-			return []uint64{4, uint64(live[r.IntN(len(live))])}
-		case x >= 72 && len(inUser) > 0:
+			if r.IntN(4) == 0 {
+				return []uint64{4, uint64(live[r.IntN(len(live))])}
+			}
+		case x >= 67 && len(inUser) > 0:
 			g := inUser[r.IntN(len(inUser))]
 			y := r.IntN(100)
 			k := uint64(1)
@@ -369,7 +374,7 @@ func runOnceRandom(t *testing.T, w *hist.W, h int) {
 		defer s.teardown()
 		w.Begin(fmt.Sprintf("r%d", h), nil)
 		steps := 8 + r.IntN(50)
-		maxCallers := 2 + r.IntN(7)
+		maxCallers := 2 + r.IntN(9)
 		var prev []uint64
 		for k := 0; k < steps; k++ {
 			ev := s.gen(r, maxCallers)
@@ -487,6 +492,40 @@ func (s *msys) exec(ev []uint64) (obs []uint64, ok bool) {
 		a := s.c.Acts[i]
 		a.Data.(*mdata).outcome = int(ev[2])
 		s.c.StepUser(a)
+	case ev[0] == 3 && len(ev) == 3 && ev[1] >= 1 && ev[1] <= 64:
+		// n callers released together: memo has no schedule point, so this is the only way to make two callers race
+		// for the swap.  Which of them won is read off afterwards.
+		n := int(ev[1])
+		base := len(s.c.Acts)
+		start := make(chan struct{})
+		var arrived atomic.Int64
+		for k := 0; k < n; k++ {
+			a := s.c.NewActor(kMemo)
+			d := &mdata{outcome: -1}
+			a.Data = d
+			s.c.Go(a, func(a *ctl.Actor) {
+				<-start
+				// spin barrier: all n goroutines leave it within nanoseconds of each other
+				arrived.Add(1)
+				for spins := 1; arrived.Load() < int64(n); spins++ {
+					if spins%2000 == 0 {
+						runtime.Gosched()
+					}
+				}
+				v, err := s.f()
+				d.res = classify(v, err)
+			})
+		}
+		synctest.Wait()
+		close(start)
+		synctest.Wait()
+		ev[2] = 0
+		for k := 0; k < n; k++ {
+			if s.c.Acts[base+k].InUser() != 0 {
+				ev[2] = uint64(k)
+				break
+			}
+		}
 	default:
 		return nil, false
 	}
@@ -510,6 +549,9 @@ func (s *msys) gen(r *rand.Rand, maxCallers int, pReturn int) []uint64 {
 			}
 			return []uint64{2, uint64(inUser[r.IntN(len(inUser))]), k}
 		case x >= pReturn && len(s.c.Acts) < maxCallers:
+			if r.IntN(4) == 0 {
+				return []uint64{3, uint64(2 + r.IntN(11)), 0}
+			}
 			return []uint64{1}
 		}
 	}
@@ -522,10 +564,19 @@ func (s *msys) teardown() {
 }
 
 func (s *msys) count(ev, obs []uint64) {
-	if ev[0] == 1 {
+	switch ev[0] {
+	case 1:
 		s.w.Count("memo.ev.call", 1)
-	} else {
+	case 2:
 		s.w.Count(fmt.Sprintf("memo.ev.fn_return.%d", ev[2]), 1)
+	case 3:
+		s.w.Count("memo.ev.burst", 1)
+		if len(obs) == int(2*ev[1]) {
+			s.w.Count("memo.ev.burst_racing_for_first_call", 1)
+		}
+		if ev[2] != 0 {
+			s.w.Count("memo.burst_winner_not_first_spawned", 1)
+		}
 	}
 	nb, nret := 0, 0
 	for i := 0; i+1 < len(obs); i += 2 {
@@ -542,7 +593,7 @@ func (s *msys) count(ev, obs []uint64) {
 	if ev[0] == 2 && nret >= 3 {
 		s.w.Count("memo.fn_return_released_two_or_more_waiters", 1)
 	}
-	if ev[0] == 1 && nret >= 2 && obs[len(obs)-2] != 2 && obs[len(obs)-2] != 6 {
+	if ev[0] != 2 && nret >= 2 && obs[len(obs)-2] != 2 && obs[len(obs)-2] != 6 {
 		s.w.Count("memo.call_after_completion", 1)
 	}
 }
